@@ -681,6 +681,8 @@ class Sess:
                 a["fit_its"] = int(op["fit_its"])
         elif a["method"] in ("src", "srcmps"):
             kw.update(max_bond=64)
+        if a["method"] in ("fit", "src", "srcmps"):
+            kw["seed"] = int(self.rng.integers(1 << 30))     # these methods draw random numbers: keep the run reproducible
         try:
             if via == "gate_nonlocal":
                 new = self.psi.gate_nonlocal(G, where, info=self.info, inplace=a["inplace"], **kw)
@@ -780,12 +782,14 @@ class Sess:
             elif ev == "entropy":
                 got = self.psi.entropy(i, info=self.info)
                 lam = ref[ref > 0]
-                q = {"val": qdiff(got, float(-(lam * np.log2(lam)).sum()), max(self.qtol, 1e-7))}
+                sc = max(1.0, float(np.abs(lam * np.log2(lam)).max()))
+                q = {"val": qdiff(got / sc, float(-(lam * np.log2(lam)).sum()) / sc, max(self.qtol, 1e-7))}
                 s = snap_int(got, 1e-6)
                 q["ent"] = BAD if s == "OFFGRID" else s
             else:  # schmidt_gap
                 got = self.psi.schmidt_gap(i, info=self.info)
-                q = {"val": qdiff(got, ref[0] - (ref[1] if ref.size > 1 else 0.0), self.qtol), "gap60": snap60(got, self.qtol)}
+                sc = max(1.0, float(ref[0]))     # the gap is a difference of numbers of this size
+                q = {"val": qdiff(got / sc, (ref[0] - (ref[1] if ref.size > 1 else 0.0)) / sc, self.qtol), "gap60": snap60(got, self.qtol)}
         except Exception as ex:
             return self._fail(ev, a, ex)
         return self._finish(ev, a, v, v, q=q)
@@ -816,7 +820,8 @@ class Sess:
             got = self.psi.magnetization(i, direction=dr, info=self.info)
         except Exception as ex:
             return self._fail("magnetization", a, ex)
-        q = {"val": qdiff(got, ref, self.qtol), "m60": snap60(got, self.qtol)}
+        sc = max(1.0, float(np.vdot(v, v).real))      # the value is a sum of terms of the size of <psi|psi>
+        q = {"val": qdiff(got / sc, ref / sc, self.qtol), "m60": snap60(got, self.qtol)}
         return self._finish("magnetization", a, v, v, q=q)
 
     def _where(self, op):
@@ -868,7 +873,8 @@ class Sess:
                                                        normalized=normalized, info=self.info)
         except Exception as ex:
             return self._fail("local_expectation_canonical", a, ex)
-        q = {"val": qdiff(got, ref, self.qtol), "e60": snap60(got, self.qtol)}
+        sc = 1.0 if normalized else max(1.0, float(np.vdot(v, v).real))
+        q = {"val": qdiff(got / sc, ref / sc, self.qtol), "e60": snap60(got, self.qtol)}
         return self._finish("local_expectation_canonical", a, v, v, q=q)
 
     def op_compute_local_expectation_canonical(self, op):
